@@ -133,4 +133,121 @@ theorem classTokens_join (ts : List String) (hv : ∀ t ∈ ts, validTokC t.toLi
   · rintro ⟨x, hx, he⟩; rwa [← String.toList_inj.mp he]
   · intro h; exact ⟨t, h, rfl⟩
 
+/-- the class tokens / style declarations an attribute list denotes -/
+def clsOf (l : List (String × String)) : List String := classTokens ((getA l "class").getD "")
+def styOf (l : List (String × String)) : List (String × String) := styleDecls ((getA l "style").getD "")
+
+def validTok (t : String) : Prop := validTokC t.toList
+
+theorem classTokenError_none (tok : String) (h : validTok tok) : classTokenError tok = none := by
+  obtain ⟨h1, h2⟩ := h
+  have he : tok.isEmpty = false := by
+    cases hb : tok.isEmpty with
+    | false => rfl
+    | true =>
+      have := String.isEmpty_iff.mp hb
+      subst this; exact absurd (by decide : ("" : String).toList = []) h1
+  have ha : tok.toList.any isAsciiWs = false := by
+    simp only [List.any_eq_false]; intro c hc; simp [h2 c hc]
+  simp [classTokenError, he, ha]
+
+theorem classTokens_empty : classTokens "" = [] := by decide
+
+theorem join_nil : (" " : String).intercalate [] = "" := by decide
+
+/-- `classList.add(tok)` -/
+theorem addClass_attrs (d : Dom) (x : Id) (tok : String) (r : NodeRec)
+    (hx : d.get? x = some r) (hk : r.kind.isElem = true) (hv : validTok tok) :
+    (∃ r', (d.addClass x tok).get? x = some r' ∧ EqModAttrs r r' ∧
+      (∀ k, k ≠ "class" → getA r'.attrs k = getA r.attrs k) ∧
+      (∀ t, t ∈ clsOf r'.attrs ↔ t ∈ clsOf r.attrs ∨ t = tok)) ∧
+    (∀ y, y ≠ x → (d.addClass x tok).get? y = d.get? y) ∧
+    (d.addClass x tok).next = d.next := by
+  have hga : d.getAttribute x "class" = getA r.attrs "class" := by
+    simp [Dom.getAttribute, Dom.attrsOf, hx]
+  simp only [Dom.addClass, classTokenError_none tok hv, hga]
+  generalize hts : classTokens ((getA r.attrs "class").getD "") = ts
+  have hvalid : ∀ t ∈ ts, validTokC t.toList := by
+    intro t ht; rw [← hts] at ht; exact classTokens_valid _ t ht
+  let new := if ts.contains tok then ts else ts ++ [tok]
+  have hnew_valid : ∀ t ∈ new, validTokC t.toList := by
+    intro t ht
+    by_cases hc : ts.contains tok = true
+    · simp only [new, hc, if_true] at ht; exact hvalid t ht
+    · have hf : ts.contains tok = false := by simpa using hc
+      simp only [new, hf, Bool.false_eq_true, if_false, List.mem_append, List.mem_singleton] at ht
+      rcases ht with ht | ht
+      · exact hvalid t ht
+      · subst ht; exact hv
+  have hnew_mem : ∀ t, t ∈ new ↔ t ∈ ts ∨ t = tok := by
+    intro t
+    by_cases hc : ts.contains tok = true
+    · simp only [new, hc, if_true]
+      have : tok ∈ ts := by simpa using hc
+      constructor
+      · exact Or.inl
+      · rintro (h | h); exact h; exact h ▸ this
+    · have hnm : tok ∉ ts := by simpa using hc
+      simp [new, hnm]
+  have hne : new.isEmpty = false := by
+    by_cases hc : ts.contains tok = true
+    · have : tok ∈ ts := by simpa using hc
+      simp only [new, hc, if_true]
+      cases ts with
+      | nil => simp at this
+      | cons _ _ => rfl
+    · have hnm : tok ∉ ts := by simpa using hc
+      simp [new, hnm]
+  have hcu : d.classUpdate x new = d.setAttribute x "class" (" ".intercalate new) := by
+    simp [Dom.classUpdate, hne]
+  show (∃ r', (d.classUpdate x new).get? x = some r' ∧ _) ∧ _
+  rw [hcu]
+  obtain ⟨⟨r', h1, h2, h3⟩, h4, h5⟩ := setAttribute_attrs d x "class" (" ".intercalate new) r hx hk
+  refine ⟨⟨r', h1, h2, fun k hkc => by rw [h3 k]; simp [hkc], ?_⟩, h4, h5⟩
+  intro t
+  have : getA r'.attrs "class" = some (" ".intercalate new) := by rw [h3]; simp
+  simp only [clsOf, this, Option.getD_some, hts]
+  rw [classTokens_join new hnew_valid t, hnew_mem t]
+
+/-- `classList.remove(tok)` -/
+theorem removeClass_attrs (d : Dom) (x : Id) (tok : String) (r : NodeRec)
+    (hx : d.get? x = some r) (hk : r.kind.isElem = true) (hv : validTok tok) :
+    (∃ r', (d.removeClass x tok).get? x = some r' ∧ EqModAttrs r r' ∧
+      (∀ k, k ≠ "class" → getA r'.attrs k = getA r.attrs k) ∧
+      (∀ t, t ∈ clsOf r'.attrs ↔ t ∈ clsOf r.attrs ∧ t ≠ tok)) ∧
+    (∀ y, y ≠ x → (d.removeClass x tok).get? y = d.get? y) ∧
+    (d.removeClass x tok).next = d.next := by
+  have hga : d.getAttribute x "class" = getA r.attrs "class" := by
+    simp [Dom.getAttribute, Dom.attrsOf, hx]
+  simp only [Dom.removeClass, classTokenError_none tok hv, hga]
+  generalize hts : classTokens ((getA r.attrs "class").getD "") = ts
+  have hvalid : ∀ t ∈ ts, validTokC t.toList := by
+    intro t ht; rw [← hts] at ht; exact classTokens_valid _ t ht
+  have hnew_valid : ∀ t ∈ ts.filter (· != tok), validTokC t.toList := by
+    intro t ht; exact hvalid t (List.mem_filter.mp ht).1
+  have hnew_mem : ∀ t, t ∈ ts.filter (· != tok) ↔ t ∈ ts ∧ t ≠ tok := by
+    intro t; simp [List.mem_filter]
+  by_cases hskip : ((ts.filter (· != tok)).isEmpty && (getA r.attrs "class").isNone) = true
+  · -- nothing to update: no class attribute and no tokens
+    have hcu : d.classUpdate x (ts.filter (· != tok)) = d := by
+      simp only [Dom.classUpdate, hga, hskip, if_true]
+    rw [hcu]
+    refine ⟨⟨r, hx, ⟨rfl, rfl, rfl, rfl⟩, fun _ _ => rfl, ?_⟩, fun _ _ => rfl, rfl⟩
+    simp only [Bool.and_eq_true, Option.isNone_iff_eq_none] at hskip
+    intro t
+    have hts0 : ts = [] := by rw [← hts, hskip.2]; exact classTokens_empty
+    simp [clsOf, hskip.2, classTokens_empty, hts0] at *
+  · have hcu : d.classUpdate x (ts.filter (· != tok)) =
+        d.setAttribute x "class" (" ".intercalate (ts.filter (· != tok))) := by
+      simp only [Dom.classUpdate, hga]
+      simp only [hskip, Bool.false_eq_true, if_false]
+    rw [hcu]
+    obtain ⟨⟨r', h1, h2, h3⟩, h4, h5⟩ :=
+      setAttribute_attrs d x "class" (" ".intercalate (ts.filter (· != tok))) r hx hk
+    refine ⟨⟨r', h1, h2, fun k hkc => by rw [h3 k]; simp [hkc], ?_⟩, h4, h5⟩
+    intro t
+    have : getA r'.attrs "class" = some (" ".intercalate (ts.filter (· != tok))) := by rw [h3]; simp
+    simp only [clsOf, this, Option.getD_some, hts]
+    rw [classTokens_join _ hnew_valid t, hnew_mem t]
+
 end Leptos.View
